@@ -345,6 +345,7 @@ func c01Histories(thorough bool) []c01Case {
 type c01Replay struct {
 	Case   c01Case   `json:"case"`
 	Policy c01Policy `json:"policy"`
+	Repeat int       `json:"repeat,omitempty"` // > 0: the finding is about repeated executions of the same policy in one process
 }
 
 func c01Diff(a, b []string) string {
@@ -413,8 +414,13 @@ func c01Check(run *ev.Run, c c01Case, bound int, first bool) (execs int) {
 		again, _, _ := c01Exec(c, c01Policy{})
 		execs++
 		if strings.Join(again, "|") != strings.Join(ref, "|") {
-			fmt.Fprintf(os.Stderr, "HARNESS-NONDETERMINISM: default policy of %s gives two different vectors: %s\n", c, c01Diff(ref, again))
-			os.Exit(2)
+			// every owned source of nondeterminism is pinned to its default here, the world is built from fixed keys and times:
+			// two executions of one history in one process that differ depend on process state, scheduling or an unowned clock
+			third, _, _ := c01Exec(c, c01Policy{})
+			execs++
+			run.Fail(ev.Finding{Clause: "independent-of-process-lifetime", Detail: fmt.Sprintf("history %s executed three times in one process under the default environment: run 1 vs run 2: %s; run 2 vs run 3 equal: %v",
+				c, c01Diff(ref, again), strings.Join(again, "|") == strings.Join(third, "|")), Replay: c01Replay{Case: c, Policy: c01Policy{}, Repeat: 3}})
+			return execs
 		}
 	}
 	nMap := 0
@@ -480,6 +486,15 @@ func runC01(replay string) int {
 				return []ev.Finding{{Clause: "replay-file", Detail: err.Error()}}
 			}
 			ref, _, _ := c01Exec(r.Case, c01Policy{})
+			if r.Repeat > 0 {
+				for i := 1; i < r.Repeat; i++ {
+					again, _, _ := c01Exec(r.Case, r.Policy)
+					if strings.Join(again, "|") != strings.Join(ref, "|") {
+						return []ev.Finding{{Clause: "independent-of-process-lifetime", Detail: c01Diff(ref, again)}}
+					}
+				}
+				return nil
+			}
 			got, _, _ := c01Exec(r.Case, r.Policy)
 			if strings.Join(got, "|") != strings.Join(ref, "|") {
 				return []ev.Finding{{Clause: "same-history-same-result", Signature: c01Signature(r.Policy, ref, got), Detail: c01Diff(ref, got)}}
@@ -515,7 +530,7 @@ func runC01(replay string) int {
 				firstCase = &cc
 				firstVec, _, _ = c01Exec(c, c01Policy{})
 			}
-			execs := c01Check(run, c, bound, done < 2)
+			execs := c01Check(run, c, bound, true)
 			run.Count("transitions", int64(execs))
 			run.Count("histories", 1)
 			done++
